@@ -209,3 +209,34 @@ Section Live.
   Lemma callpoint_line l : strip C (deferred_str C (lv_raw l)) = f_src (std_frame C l).
   Proof. unfold deferred_str, std_frame. cbn [f_src]. apply strip_rstrip. Qed.
 End Live.
+
+(* when linecache is a function of (file, line) at the moment of observation -- entries at the same
+   file and line carry the same raw text -- the interpreter's entries are source-consistent, which is
+   what reading folded entries back needs *)
+Fixpoint raw_consistent (fs : list live_frame) : bool :=
+  match fs with
+  | [] => true
+  | a :: r => match r with
+              | [] => true
+              | b :: _ => (negb (str_eqb (lv_file a) (lv_file b) && (lv_lineno a =? lv_lineno b))
+                           || str_eqb (lv_raw a) (lv_raw b)) && raw_consistent r
+              end
+  end.
+
+Lemma live_consistent C fs : raw_consistent fs = true -> src_consistent (map (std_frame C) fs) = true.
+Proof.
+  induction fs as [|a fs IH]; [reflexivity|]. destruct fs as [|b fs]; [reflexivity|].
+  intro H. change (raw_consistent (a :: b :: fs)) with
+    ((negb (str_eqb (lv_file a) (lv_file b) && (lv_lineno a =? lv_lineno b)) || str_eqb (lv_raw a) (lv_raw b))
+     && raw_consistent (b :: fs)) in H.
+  apply andb_true_iff in H as [H1 H2].
+  change (src_consistent (map (std_frame C) (a :: b :: fs))) with
+    ((negb (same_place (std_frame C a) (std_frame C b)) || str_eqb (f_src (std_frame C a)) (f_src (std_frame C b)))
+     && src_consistent (map (std_frame C) (b :: fs))).
+  rewrite (IH H2), andb_true_r.
+  destruct (same_place (std_frame C a) (std_frame C b)) eqn:S; [|reflexivity]. cbn [negb orb].
+  unfold same_place, std_frame in S. cbn [f_path f_lineno func_of f_func] in S.
+  apply andb_true_iff in S as [S _]. apply andb_true_iff in S as [S1 S2].
+  apply str_eqb_eq, dec_inj in S2. rewrite S1, S2, N.eqb_refl in H1. cbn [andb negb orb] in H1.
+  apply str_eqb_eq in H1. unfold std_frame. cbn [f_src]. rewrite H1. apply str_eqb_refl.
+Qed.
